@@ -14,9 +14,16 @@ def run():
         "a request the broker received before the cut but did not answer must be re-sent by the client after recovery (its response was lost)",
     ]
     # L1: the repaired design satisfies every invariant; the as-coded design must violate exactly the known ones (sanity of the model)
-    cfg = C.write_cfg("ConnLifecycle_c05.cfg", faults=2, fixed=True, close=False)
+    cfg = C.write_cfg("ConnLifecycle_c05.cfg", faults=2, fixed=True, close=False, callers=("P1",) if quick else ("P1", "P2"))
     ctx.l1("ConnLifecycle", cfg, timeout=1500)
     os.remove(os.path.join(SPEC, cfg))
+    if not quick:
+        # sanity of the model: the as-coded variant (pinned commit) must violate the invariants whose defects were repaired in /repo
+        cfg = C.write_cfg("ConnLifecycle_c05_coded.cfg", faults=1, fixed=False, close=False, callers=("P1", "P2"))
+        r = ctx.l1("ConnLifecycle", cfg, timeout=1500, must_hold=False)
+        os.remove(os.path.join(SPEC, cfg))
+        if r.ok:
+            raise Inconclusive("as-coded ConnLifecycle model unexpectedly satisfies every invariant: the model lost its discriminating power")
     scs = C.enumerated("C05", quick)
     gcfg = C.write_cfg("ConnLifecycle_c05_gen.cfg", faults=2, fixed=True, close=False, view=False, gen=True)
     r = ctx.tlc("ConnLifecycle", gcfg, workers=1, simulate="num=%d" % (300 if quick else 3000), depth=120, timeout=600)
